@@ -11,6 +11,7 @@ write set) and compares __getnewargs__ with __new__ by name prefix; R-C10-4 reco
 compares only the SETS of the other atoms of the two guards.  R-C10-3 is T3: the defining slices of the first-step flag, the clock
 arithmetic and the exit tests are evaluated by sa/peval on a dozen concrete probes (bounded to them), plus two CFG dominance facts.
 R-C10-5 is T3: the prologue slice defining the rule clock is evaluated on 9 (prev_sim_time, rule_timestep) pairs and 8 fresh-run states.
+R-C10-6 is T2 (c04.registration_rules): path enumeration of _get_control_managers with the control type fixed; registrations must agree on all paths.
 """
 import ast
 
@@ -42,7 +43,9 @@ EXPLANATION = (
     "_update_internal_graph guard a link's connectivity bit with the same set of non-status atoms. R-C10-5 (T3, finite evaluation by sa/peval of "
     "the prologue slice that defines the rule clock -- the simulator attribute the loop multiplies with rule_timestep -- on 9 (prev_sim_time, "
     "rule_timestep) pairs on and off the rule grid, bounded to them): on a continued run clock * rule_timestep is the smallest rule instant strictly "
-    "after the last accepted solution (clock == prev_sim_time // rule_timestep + 1), on a fresh run the clock is 1. "
+    "after the last accepted solution (clock == prev_sim_time // rule_timestep + 1), on a fresh run the clock is 1. R-C10-6 (T2 path enumeration of "
+    "_get_control_managers, shared with C04): every control drawn from wn.controls() and the internal families is registered in the checker of its type on every "
+    "path -- nothing but the control's type (in particular not the clock at restart) decides whether a new simulator knows a control. "
     "Decides this inventory, not numerical equality of the results.")
 RULE_TEXT = ("one instance = one loop-carried simulator attribute / local, one model class carrying run-time state, one prologue store, "
              "one exit path; distinct = distinct constructs")
@@ -926,6 +929,18 @@ def run(repo, chk):
                    expected="clock == 1", found=off[:4] or None)
     chk.floor("R-C10-5", 2)
 
+    # ---------------------------------------------------------------- R-C10-6 the control bookkeeping of a new simulator is a function of the model alone
+    # (T2 path enumeration shared with C04, c04.registration_rules: every control drawn from wn.controls() and from the internal families is registered in the
+    #  checker of its type on EVERY path through _get_control_managers -- a registration that also depends on a test about something else, e.g. the clock at the
+    #  moment the simulator is created, makes a continued run drop controls the uninterrupted run keeps)
+    from .c04 import registration_rules
+    ctype = repo.cls(CTRL, "_ControlType")
+    members = [t.id for s_ in ctype.body if isinstance(s_, ast.Assign) for t in s_.targets if isinstance(t, ast.Name)]
+    if len(members) < 4:
+        raise AnchorError("_ControlType members not found")
+    registration_rules(repo, chk, "R-C10-6", members)
+    chk.floor("R-C10-6", 5)
+
 
 _FS_OLD = "        if self._wn.sim_time == 0:\n            first_step = True\n        else:\n            first_step = False\n"
 _RI_OLD = ("        if first_step:\n            self._rule_iter = 1\n        else:\n"
@@ -933,6 +948,8 @@ _RI_OLD = ("        if first_step:\n            self._rule_iter = 1\n        els
 _ENC_OLD = ("            if link.status == wntr.network.LinkStatus.Closed:\n                vals.append(0)\n                vals.append(0)\n"
             "            else:\n                vals.append(1)\n                vals.append(1)\n")
 WITNESSES = [
+    dict(name="passed-time-controls-dropped-at-restart", file=CORE, old="        for c_name, c in self._wn.controls():\n            categorize_control(c)\n",
+         new="        for c_name, c in self._wn.controls():\n            if self._wn.sim_time > 0 and getattr(c.condition, '_threshold', None) is not None and c.condition._threshold < self._wn.sim_time:\n                continue\n            categorize_control(c)\n", rule="R-C10-6"),
     dict(name="restart-graph-from-isolation-flags", file=CORE, old="            if link.status == wntr.network.LinkStatus.Closed:\n                vals.append(0)",
          new="            if link.status == wntr.network.LinkStatus.Closed or link._is_isolated:\n                vals.append(0)", rule="R-C10-4"),
     dict(name="rule-clock-reset-on-restart", file=CORE, old="            self._rule_iter = int(self._wn._prev_sim_time // self._wn.options.time.rule_timestep) + 1\n",
